@@ -173,9 +173,12 @@ CHECKS = {
         text=("The spec's class table is immutable and each action changes one instance (PropIsolation); programs interleaving class statements "
               "(independent classes, same class/method names with different async-ness, subclasses), instantiation and events on up to three "
               "machines are executed and, after EVERY step, the projection of all instances and the structure of every class object defined "
-              "so far (states, events, per-state allowed events and targets) must equal the declared definitions."),
+              "so far (states, events, per-state allowed events and targets) must equal the declared definitions.  A two-instance model "
+              "(outside calls on either machine, sends from the callbacks of one to the other: XCall/XQueue/XRet) is checked exhaustively "
+              "by TLC (all invariants, PropIsolation) and its behaviours are replayed on two real instances; programs also cover classes "
+              "over one shared Enum, crossing vocabularies, attribute-bag providers and machines that drive each other from callbacks."),
         design_ref="DESIGN.md 5 C16",
-        technique="TLA+ spec (frame conditions, fixed class table) + TLC trace validation of multi-class programs with class probes",
+        technique="TLA+ spec (frame conditions, fixed class table, cross-instance hand-overs) + TLC exhaustive two-instance model with behaviour replay + TLC trace validation of multi-class programs with class probes",
     ),
     "C17": dict(
         category="model_checking",
